@@ -369,9 +369,17 @@ func c17GenMulti(rng *rand.Rand, tier string, emit func(string)) {
 		if sp.layout != "" && sp.layout[0] == 'b' {
 			return 18
 		}
+		if !thorough && sp.codec == "xz" {
+			return 13
+		}
 		return map[string]int{"gz": 10, "bz2": 14, "xz": 24, "zst": 9}[sp.codec]
 	}
-	trlLen := func(sp c17Spec) int { return map[string]int{"gz": 8, "bz2": 10, "xz": 28, "zst": 7}[sp.codec] }
+	trlLen := func(sp c17Spec) int {
+		if !thorough && sp.codec == "xz" {
+			return 12
+		}
+		return map[string]int{"gz": 8, "bz2": 10, "xz": 28, "zst": 7}[sp.codec]
+	}
 	// damage of the headers and trailers of every member of a file
 	members := func(op, spec, dataspec string, nrec int, allCuts, allBits bool, nsample int) {
 		sp, _ := c17ParseSpec(spec)
@@ -404,13 +412,13 @@ func c17GenMulti(rng *rand.Rand, tier string, emit func(string)) {
 			}
 			for _, p := range region {
 				line(fmt.Sprintf("byte=%d", p))
-				if !allCuts && p > 0 {
+				if !allCuts && p > 0 && (thorough || sp.layout[0] != 'b') {
 					line(fmt.Sprintf("cut=%d", p))
 				}
 				for bit := 0; bit < 8; bit++ {
 					// the identification bytes of every member (the damage that looks like "trailing garbage") always,
 					// the other header / trailer bits in thorough
-					if allBits || p-off < 4 || rng.Intn(8) == 0 {
+					if allBits || p-off < 4 || rng.Intn(16) == 0 {
 						line(fmt.Sprintf("flip=%d", p*8+bit))
 					}
 				}
@@ -435,21 +443,24 @@ func c17GenMulti(rng *rand.Rand, tier string, emit func(string)) {
 	}
 	// (a) gzip, file path and stdin path
 	members("file", "gz+r3", "nrec=6", 6, true, thorough, 10)
-	members("file", "gz+i2", "nrec=4", 4, thorough, thorough, 20)
-	members("file", "gz+b64", "nrec=3", 3, thorough, thorough, 20)
-	members("file", "gz+r4", "nrec=8", 8, false, false, 10)
-	members("kseq", "gz+r3", "nrec=6", 6, true, thorough, 10)
-	members("kseq", "gz+i3", "fq=4", 4, thorough, thorough, 10)
-	members("kseq", "gz+b64", "nrec=3", 3, thorough, thorough, 10)
+	members("file", "gz+i2", "nrec=4", 4, thorough, thorough, 10)
+	members("kseq", "gz+r3", "nrec=6", 6, thorough, thorough, 10)
 	if thorough {
+		members("file", "gz+b64", "nrec=3", 3, true, true, 20)
+		members("file", "gz+r4", "nrec=8", 8, true, false, 10)
+		members("kseq", "gz+i3", "fq=4", 4, true, true, 10)
+		members("kseq", "gz+b64", "nrec=3", 3, true, true, 10)
 		members("file", "gz:fastq+i3", "nrec=5", 5, true, true, 40)
 		members("file", "gz:genbank+r2", "nrec=3", 3, true, false, 40)
 		members("file", "gz+b48", "nrec=12", 12, false, false, 200)
 		members("kseq", "gz+i4", "nrec=9", 9, true, false, 60)
+	} else {
+		members("file", "gz+b96", "nrec=3", 3, false, false, 10)
+		members("kseq", "gz+b96", "nrec=3", 3, false, false, 10)
 	}
 	// concatenated bzip2 / xz / zstd streams
 	for _, codec := range []string{"bz2", "xz", "zst"} {
-		members("file", codec+"+r2", "nrec=4", 4, true, thorough, 10)
+		members("file", codec+"+r2", "nrec=4", 4, thorough, thorough, 10)
 		if thorough {
 			members("file", codec+"+i3", "nrec=5", 5, true, false, 60)
 			members("file", codec+":fastq+r2", "nrec=3", 3, false, false, 40)
@@ -470,13 +481,17 @@ func c17GenMulti(rng *rand.Rand, tier string, emit func(string)) {
 	// (b) every truncation point of the other formats
 	for _, format := range c17Formats[1:] {
 		codecs := []string{"gz"}
-		nrec := 2
+		nrec := 1
 		if thorough {
 			codecs, nrec = []string{"gz", "bz2", "xz", "zst"}, 3
 		}
 		for _, codec := range codecs {
 			z := c17Build(c17Spec{codec: codec, format: format}, nrec).z
-			for k := 1; k <= len(z); k++ {
+			step, k0 := 1, 1
+			if !thorough && (format == "genbank" || format == "embl") {
+				step, k0 = 2, 1+rng.Intn(2) // quick: every other truncation point of the two long formats
+			}
+			for k := k0; k <= len(z); k += step {
 				emit(fmt.Sprintf("file %s:%s nrec=%d cut=%d n=0 err=eof", codec, format, nrec, k))
 			}
 		}
